@@ -2,6 +2,7 @@ package checks
 
 import (
 	"fmt"
+	"github.com/meshplus/bitxhub-kit/types"
 	"os"
 	"os/exec"
 	"path/filepath"
@@ -221,6 +222,9 @@ func (cm *c11Commit) dangling(b int) (bool, string) {
 	return false, ""
 }
 
+// c11Contract: address of the contract deployed by the never-restarted scenario's start.
+var c11Contract *types.Address
+
 // c11Scenarios is shared by the check and its worker subprocess.
 func c11Scenarios() []c11Scenario {
 	return []c11Scenario{
@@ -228,9 +232,17 @@ func c11Scenarios() []c11Scenario {
 		// same heights on a node that has been running since genesis without a restart:
 		// its in-memory journal window is the one it computed itself, not one read back
 		// from the store at open time
-		{"never-restarted(heights 13-14, journal pruning active)", func() *fix.World { w := fix.NewWorld(fix.Options{}); w.Prelude(); return w }, func(w *fix.World) [][]pb.Transaction {
+		{"never-restarted(heights 14-16, journal pruning active, contract account touched)", func() *fix.World {
+			w := fix.NewWorld(fix.Options{})
+			w.Prelude()
+			// a deployed contract (account with code) whose balance later blocks change
+			res := w.Must(w.Block(fix.XVMDeploy(fix.KUser, w.N.Next(fix.KUser), fix.WasmTestdata("ledger_test_gc.wasm"))))
+			c11Contract = types.NewAddress(res.Receipts[0].Ret)
+			return w
+		}, func(w *fix.World) [][]pb.Transaction {
 			return [][]pb.Transaction{
 				{w.TransferTx(fix.KUser, fix.KUser2, "5")},
+				{fix.Transfer(fix.KUser, w.N.Next(fix.KUser), c11Contract, "7")},
 				{},
 			}
 		}},
@@ -492,7 +504,7 @@ func C11(c *mc.Ctx) {
 	}
 	fix.Cleanup()
 	c.Set("distinct_nontrivial", len(distinct))
-	c.Set("rule", "for each block commit of 4 scenarios (post-prelude chain with journal pruning, reopened before the crashing block and never restarted since genesis: transfer + WASM contract deployment (new account with code), IBTP request + transfer, empty block, IBTP receipt; young chain heights 2-4; genesis block 1) every product of prefixes of the recorded durable writes (state-store batches x chain-index batch x ordered blockfile appends) is materialised on a copy of the pre-commit data and reopened through ledger.New; distinct = distinct (scenario,height,prefix triple)")
+	c.Set("rule", "for each block commit of 4 scenarios (post-prelude chain with journal pruning, reopened before the crashing block and never restarted since genesis, the latter with a block that changes only the balance of a deployed contract account: transfer + WASM contract deployment (new account with code), IBTP request + transfer, empty block, IBTP receipt; young chain heights 2-4; genesis block 1) every product of prefixes of the recorded durable writes (state-store batches x chain-index batch x ordered blockfile appends) is materialised on a copy of the pre-commit data and reopened through ledger.New; distinct = distinct (scenario,height,prefix triple)")
 	c.Assume("process death, not power loss: each durable write (leveldb batch, one file append) is all-or-nothing and each writer's writes reach the OS in program order")
 	c.Assume("memkv stands in for goleveldb; the blockfile is the real one")
 	c.Set("exhaustive", true)
